@@ -37,11 +37,11 @@ CHECKS = {
   note="Trusted: the tag is a context value (child contexts are fine); Commit/Rollback/Close carry no context; cancellation is injected between pool calls only; database/sql's own context handling.",
   tech="deterministic simulation: context-tag invariant at the pool and driver seams + cancellation injected at every pool call index"),
 "C13": dict(cat="fault_enumeration", ref="DESIGN.md section 7, C13",
-  text="Seeded create/save/update/delete/query operations over record graphs with recording hooks on every model run on the real stack, fault-free (exactly-once and order per in-memory record, statement between before- and after-hooks, all hooks on the operation's own transaction, hook-set values stored, marker rows written through the hook's tx, silence under SkipHooks/UpdateColumn, AfterFind once per delivered row) and once per hook invocation with that invocation failing (error returned, nothing of a later phase runs, database unchanged, no leak). Sampled over operations, exhaustive over hook invocations per operation in the thorough tier.",
+  text="Seeded create/save/update/delete/query operations over record graphs (trees, records shared by several parents with or without a key, children pointing back at their parent) with recording hooks on every model run on the real stack, fault-free (exactly-once and order per in-memory record, statement between before- and after-hooks, all hooks on the operation's own transaction, hook-set values stored, marker rows written through the hook's tx, silence under SkipHooks/UpdateColumn, AfterFind once per delivered row) and once per hook invocation with that invocation failing (error returned, nothing of a later phase runs, database unchanged, no leak). Sampled over operations, exhaustive over hook invocations per operation in the thorough tier.",
   note="Trusted: record identity = address the hook receives; AfterFind accounting uses rows delivered by the driver; records sharing a key with another record of the same value are exempt from the must-be-visited rule (gorm saves one of them, which one is unspecified).",
   tech="deterministic simulation: hook-invocation fault enumeration with event-log oracle"),
 "C04": dict(cat="fault_enumeration", ref="DESIGN.md section 7, C04",
-  text="Seeded trees of Transaction blocks (and manual Begin/SavePoint/RollbackTo/Commit scripts) run in lock-step with a snapshot-stack reference model on the real gorm/database/sql/SQLite stack, fault-free and once per driver call (BEGIN, SAVEPOINT, ROLLBACK TO, statements, COMMIT, Prepare) with that call failing, and once per call into the connection pool with the caller's context cancelled just before it (nothing durable, an error reported); thorough adds fault pairs. Checks durable table contents, read-backs inside blocks, identity of propagated errors/panics, usability of the enclosing transaction and leaked connections. Sampled over programs, exhaustive over single fault sites per program in the thorough tier.",
+  text="Seeded trees of Transaction blocks (and manual Begin/SavePoint/RollbackTo/Commit scripts) run in lock-step with a snapshot-stack reference model on the real gorm/database/sql/SQLite stack, fault-free and once per driver call (BEGIN, SAVEPOINT, ROLLBACK TO, statements, COMMIT, Prepare) with that call failing, and once per call into the connection pool with the caller's context cancelled just before it (nothing durable, an error reported); thorough adds fault pairs; a share of the programs starts from a handle that already carries an error. Checks durable table contents, read-backs inside blocks, identity of propagated errors/panics, usability of the enclosing transaction and leaked connections. Sampled over programs, exhaustive over single fault sites per program in the thorough tier.",
   note="Trusted: SQLite savepoint semantics as the reference for what a scope undoes; the dialector shim that reports SAVEPOINT/ROLLBACK TO errors; the narrow relaxations listed in DESIGN.md (refused ROLLBACK TO, lost COMMIT acknowledgement).",
   tech="deterministic simulation: driver fault enumeration over transaction-block programs vs snapshot-stack reference model"),
 "C05": dict(cat="fault_enumeration", ref="DESIGN.md section 7, C05",
